@@ -47,6 +47,9 @@ pub enum NStep {
     PeerDel { conn: u8, svc: u8, ip: u8 },
     PeerClientGone { conn: u8 },
     PeerDistro { conn: u8, keys: Vec<(u8, u8)> },
+    /// the peer pushes its (empty) registry snapshot, as a node does 30 s after it joined and in answer to a pull: the
+    /// receiver merges it and re-examines the range it is responsible for
+    PeerSnapshot,
     /// outcome of the TCP probe of a persistent instance (what the NetSniffing actor reports; the connection
     /// attempt itself is outside the seams)
     Probe { svc: u8, ip: u8, ok: bool },
@@ -333,7 +336,7 @@ pub async fn exec_naming(id: &'static str, script: Value) -> ExecResult {
                     }
                 }
                 NStep::Advance { .. } => {}
-                NStep::PeerUpd { .. } | NStep::PeerDel { .. } | NStep::PeerClientGone { .. } | NStep::PeerDistro { .. } => {
+                NStep::PeerUpd { .. } | NStep::PeerDel { .. } | NStep::PeerClientGone { .. } | NStep::PeerDistro { .. } | NStep::PeerSnapshot => {
                     use rnacos::naming::cluster::model::NamingRouteRequest;
                     let mut ext = std::collections::HashMap::new();
                     ext.insert("cluster_id".to_string(), "2".to_string());
@@ -352,6 +355,12 @@ pub async fn exec_naming(id: &'static str, script: Value) -> ExecResult {
                             let set: std::collections::HashSet<rnacos::naming::model::InstanceKey> = keys.iter().map(|(s, a)| rnacos::naming::model::InstanceKey::new_by_service_key(&svc_key(*s % 3), Arc::new(ip_of(*a % 4)), 8080)).collect();
                             map.insert(peer_client(*conn), set);
                             NamingRouteRequest::SyncDistroClientInstances(map)
+                        }
+                        NStep::PeerSnapshot => {
+                            use rnacos::naming::cluster::model::{SnapshotDataInfo, SnapshotForSend};
+                            let snap = SnapshotForSend { route_index: 0, node_count: 1, services: vec![], instances: vec![], mode: 0 };
+                            sim::count("probe.peer_snapshot", 1);
+                            NamingRouteRequest::Snapshot(SnapshotDataInfo::from(snap).to_bytes().unwrap_or_default())
                         }
                         _ => NamingRouteRequest::Ping(2),
                     };
@@ -646,8 +655,10 @@ fn gen_nsteps(rng: &mut Rng, n: u64, bias: &str) -> Vec<NStep> {
                 NStep::PeerUpd { conn, svc, ip, grpc: rng.chance(0.8) }
             } else if r2 < 75 {
                 NStep::PeerDel { conn: if rng.chance(0.8) { conn } else { conn + 1 }, svc, ip }
-            } else if r2 < 87 {
+            } else if r2 < 84 {
                 NStep::PeerClientGone { conn }
+            } else if r2 < 88 {
+                NStep::PeerSnapshot
             } else {
                 let nk = rng.below(3);
                 NStep::PeerDistro { conn, keys: (0..nk).map(|_| (rng.below(3) as u8, rng.below(4) as u8)).collect() }
@@ -664,6 +675,8 @@ fn gen_nsteps(rng: &mut Rng, n: u64, bias: &str) -> Vec<NStep> {
                     NStep::GrpcReg { conn: rng.below(3) as u8, svc, ip, eph: true, enabled: true, weight: 0 }
                 } else if r < 68 {
                     NStep::Probe { svc, ip, ok: rng.chance(0.4) }
+                } else if r < 72 {
+                    NStep::PeerSnapshot
                 } else {
                     NStep::Advance { ms: *rng.pick(&[500u64, 2000, 4000, 9000, 20000, 45000]) }
                 }
